@@ -187,6 +187,92 @@ def _run_shard(job):
     return out
 
 
+WORKER_MEMORY_LIMIT = int(os.environ.get('VERIF_WORKER_MEM', str(6 << 30)))     # address-space limit of one shard process
+
+
+def _shard_child(job, conn):
+    try:
+        import resource
+        soft, hard = resource.getrlimit(resource.RLIMIT_AS)
+        lim = WORKER_MEMORY_LIMIT if hard == resource.RLIM_INFINITY else min(WORKER_MEMORY_LIMIT, hard)
+        resource.setrlimit(resource.RLIMIT_AS, (lim, hard))     # a runaway allocation raises MemoryError in the case instead of waking the OOM killer
+    except Exception:
+        pass
+    try:
+        out = _run_shard(job)
+    except BaseException:
+        out = _dead_result(job, 'the shard runner itself failed: ' + traceback.format_exc()[-1500:], error=True)
+    try:
+        conn.send(out)
+    finally:
+        conn.close()
+
+
+def _dead_result(job, msg, error=False):
+    modname, idx, shard, tier, seed, shard_timeout = job
+    mod = importlib.import_module(modname)
+    rec = Recorder(mod.ID, tier, seed)
+    if not error:
+        rec.violation(f"died:{shard['fn']}", msg, shard['fn'], shard['args'])
+    out = rec.export()
+    out.update({'idx': idx, 'shard': shard, 'wall': 0.0, 'error': msg if error else None})
+    return out
+
+
+def _run_pool(jobs, workers):
+    """one forked process per shard, at most `workers` at a time.  Unlike multiprocessing.Pool this notices a process that DIES (killed by
+    the kernel for its memory use, a crash of the interpreter inside a C extension): the shard is reported (the code under test brought the
+    process down on an input on which the unchanged tree does not) and the run goes on - it never waits for a result that cannot come."""
+    from multiprocessing.connection import wait
+    ctx = multiprocessing.get_context('fork')
+    pending = list(jobs)
+    running = {}
+    results = []
+    while pending or running:
+        while pending and len(running) < workers:
+            job = pending.pop(0)
+            rd, wr = ctx.Pipe(duplex=False)
+            p = ctx.Process(target=_shard_child, args=(job, wr))
+            p.start()
+            wr.close()
+            running[p.sentinel] = (p, job, rd, time.time())
+        ready = wait([v[2] for v in running.values()] + list(running), timeout=5.0)
+        for sentinel in list(running):
+            p, job, rd, t0 = running[sentinel]
+            got = None
+            if rd in ready or rd.poll():
+                try:
+                    got = rd.recv()
+                except (EOFError, OSError):
+                    got = None
+                if got is not None:
+                    results.append(got)
+                    rd.close()
+                    p.join(30)
+                    if p.is_alive():
+                        p.kill()
+                    del running[sentinel]
+                    continue
+            if not p.is_alive():
+                # the process is gone and nothing (more) can come out of its pipe
+                if rd.poll():
+                    continue        # a result is still buffered: next round
+                code = p.exitcode
+                how = f'killed by signal {-code}' if code is not None and code < 0 else f'exit code {code}'
+                results.append(_dead_result(job, f'the process running shard {job[2]} died ({how}) without delivering a result after {int(time.time() - t0)}s: '
+                                                 f'the code under test brought the interpreter down (memory exhaustion, a crash in a C extension)'))
+                rd.close()
+                del running[sentinel]
+            elif time.time() - t0 > job[5] + 300:
+                # the in-process alarm should have ended the shard long ago: the process does not even run Python code any more
+                p.kill()
+                p.join(10)
+                results.append(_dead_result(job, f'the process running shard {job[2]} did not react to its own time limit ({job[5]}s) and was killed: stuck inside one C-level operation'))
+                rd.close()
+                del running[sentinel]
+    return results
+
+
 def run_property(modname, tier, seed, workers=None, shard_timeout=None, only=None):
     mod = importlib.import_module(modname)
     shards = mod.shards(tier, seed)
@@ -203,10 +289,7 @@ def run_property(modname, tier, seed, workers=None, shard_timeout=None, only=Non
         for j in jobs:
             results.append(_run_shard(j))
     else:
-        ctx = multiprocessing.get_context('fork')
-        with ctx.Pool(processes=min(workers, len(jobs))) as pool:
-            for r in pool.imap_unordered(_run_shard, jobs, chunksize=1):
-                results.append(r)
+        results = _run_pool(jobs, min(workers, len(jobs)))
     results.sort(key=lambda r: r['idx'])
     merged = {
         'evaluations': 0, 'transitions': 0, 'traces': 0, 'states': set(), 'state_bulk': 0, 'nontrivial': set(),
